@@ -253,6 +253,19 @@ def work_fac_wp(chunk):
                     keys = [-(w.max_space_size - sum(c.space_size for c in w.placed_component_list)) for w in res]
                     if not is_perm(wps, res) or not monotone(keys):
                         col.violation(viol("C11:sort_workplace_list-wrong-order-after-parts-were-remeasured:%s" % mode, {"mode": mode, "input(capacity, placed, target skill)": combo, "result_keys": keys}))
+                if mode == "SSP" and len(wps) > 1:
+                    # a well equipped machine is delivered to the workplace that came last, and the list is sorted again
+                    last = res[-1]
+                    last.add_facility(BaseFacility("NEW", ID="NEW", workamount_skill_mean_map={"T": 7.0}))
+                    col.checks["c11.sort_workplace_list-after-a-delivery"] += 1
+                    try:
+                        res = sort_workplace_list(list(wps), S.WP_RULES[mode], name="T")
+                    except Exception as e:
+                        col.violation(viol("C11:sort_workplace_list-raised:%s:%s" % (mode, type(e).__name__), {"mode": mode, "input": combo, "error": repr(e), "after_delivery": True}))
+                        continue
+                    keys = [-sum(f.workamount_skill_mean_map.get("T", 0.0) for f in w.facility_list if f.workamount_skill_mean_map.get("T", 0.0) > EPS) for w in res]
+                    if not is_perm(wps, res) or not monotone(keys):
+                        col.violation(viol("C11:sort_workplace_list-wrong-order-after-a-machine-was-delivered:%s" % mode, {"mode": mode, "input(capacity, placed, target skill)": combo, "result_keys": keys}))
             # several machines of one kind carry the same name (worker licences are keyed by the machine's name): 1, 2 or 4 "lathe"s per workplace, plus a differently named machine
             alpha2 = [(nf, ts, other) for nf in (1, 2, 4) for ts in (0.0, 1.0, 2.5) for other in (0.0, 1.5)]
             for combo in itertools.product(alpha2, repeat=min(n, 3)):
